@@ -1990,7 +1990,8 @@ def r11(ctx):
             ctx.undecided("R11", "DOM", f, text, f"no decode step (utils.xor applied to the chunk) located for `{src(R)}`", R)
         else:
             ctx.undecided("R11", "DOM", f, text, f"after `{src(R)}` the decode step can be bypassed, but only through statements that use the chunk in a way "
-                          "this rule does not follow (another decode path, a give-back, a test on the chunk's content)", R)
+                          "this rule does not follow (another decode path, a give-back) or through a test on the chunk that is not a statement about its "
+                          "length (content test, length arithmetic other than a comparison with a constant)", R)
 
 
 # ============================================================================ R8
